@@ -238,4 +238,116 @@ def generate(bdir):
     sa = re.search(r"void\s+assign_svalue\s*\(.*?\n\}", sv, flags=re.S)
     if not sa or not re.search(r"free_svalue \(dest, [^)]*\); assign_svalue_no_free \(dest, v\);", " ".join(sa.group(0).split())):
         raise TieBroken("fn:assign_svalue", "assign_svalue is no longer `free_svalue(dest); assign_svalue_no_free(dest, v);` in this order")
+    _programs(out, info)
+    _array_stats(out, info)
     return "\n".join(out) + "\n", info
+
+
+def _fn(path, name, site):
+    src = open(os.path.join(E.REPO, path)).read()
+    m = re.search(r"\n[\w \*]*\b%s\s*\([^;{]*\)\s*\{(.*?)\n\}" % re.escape(name), src, flags=re.S)
+    if not m:
+        raise TieBroken(site, "%s not found in %s" % (name, path))
+    return " ".join(re.sub(r"/\*.*?\*/", " ", m.group(1), flags=re.S).split())
+
+
+_CMP = {"==": "==", "!=": "!=", "<": "<", "<=": "≤", ">": ">", ">=": "≥"}
+
+
+def _cmp_lean(var, op, num):
+    if op in ("==", "!="):
+        return "(%s %s %s)" % (var, _CMP[op], num)
+    return "(decide (%s %s %s))" % (var, _CMP[op], num)
+
+
+def _programs(out, info):
+    """program_t.ref: reference_prog / free_prog (lib/lpc/program.c) and the places that hold a program reference"""
+    out.append("\n/-! ### program_t.ref: reference_prog / free_prog of lib/lpc/program.c, regenerated from the function text -/")
+    rp = _fn("lib/lpc/program.c", "reference_prog", "fn:reference_prog")
+    stm = [x.strip() for x in rp.split(";") if x.strip() and not x.strip().startswith("(void)")]
+    if stm != ["progp->ref++"]:
+        raise TieBroken("fn:reference_prog", "reference_prog is no longer the unconditional `progp->ref++;`: " + rp)
+    info["progInc"] = {"c": "progp->ref++;"}
+    out.append("/-- reference_prog.  C: `progp->ref++;` (the only statement; checked textually) -/\n"
+               "def progInc (r : Nat) : Nat := (r + 1) % 2 ^ progRefBits")
+    fp = _fn("lib/lpc/program.c", "free_prog", "fn:free_prog")
+    m = re.match(r"progp->ref-- ?; if \(progp->ref (==|!=|<=|>=|<|>) (\d+)\) return ?; if \(progp->func_ref (==|!=|<=|>=|<|>) (\d+)\) return ?; "
+                 r"if \(free_sub_strings\) deallocate_program \(progp\) ?;", fp)
+    if not m:
+        raise TieBroken("fn:free_prog", "free_prog is no longer `ref--; if (ref <op> n) return; if (func_ref <op> n) return; "
+                        "if (free_sub_strings) deallocate_program (progp); ...`: " + fp[:200])
+    keep = _cmp_lean("r'", m.group(1), m.group(2))
+    fkeep = _cmp_lean("f", m.group(3), m.group(4))
+    info["progDec"] = {"c": "progp->ref--; if (progp->ref %s %s) return; if (progp->func_ref %s %s) return;" % m.groups()}
+    out.append("/-- free_prog: new counter and \"deallocate\" (f = func_ref).  C: `%s` -/\n"
+               "def progDec (r f : Nat) : Nat × Bool :=\n  let r' := (r + 2 ^ progRefBits - 1) %% 2 ^ progRefBits\n  (r', !%s && !%s)"
+               % (info["progDec"]["c"], keep, fkeep))
+    # who holds a program reference: clone_object, dealloc_object, the inherit table (epilog / load_binary / deallocate_program)
+    checks = [
+        ("src/simulate.c", "clone_object", r"new_ob = get_empty_object \(ob->prog->num_variables_total\);.*new_ob->prog = ob->prog; reference_prog \(ob->prog, [^)]*\);",
+         "clone_object no longer does `new_ob = get_empty_object(..); ... new_ob->prog = ob->prog; reference_prog (ob->prog, ..);`"),
+        ("lib/lpc/object.c", "dealloc_object", r"if \(ob->prog\) \{ [^{}]*free_prog \(ob->prog, 1\); ob->prog = 0; \}",
+         "dealloc_object no longer releases the program with `free_prog (ob->prog, 1); ob->prog = 0;`"),
+        ("lib/lpc/program.c", "deallocate_program", r"for \(i = 0; i < \(int\) progp->num_inherited; i\+\+\) free_prog \(progp->inherit\[i\]\.prog, 1\);",
+         "deallocate_program no longer releases every inherited program once"),
+        ("lib/lpc/compiler.c", "epilog", r"reference_prog \(prog, \"epilog\"\); for \(i = 0; \(unsigned\) i < prog->num_inherited; i\+\+\) \{ reference_prog \(prog->inherit\[i\]\.prog, \"inheritance\"\); \}",
+         "epilog no longer references the new program and every inherited program once"),
+    ]
+    checks += [
+        # replace_programs(): which variables are moved, which are released, and the program switch
+        ("lib/efuns/replace_program.c", "replace_programs",
+         r"num_fewer = r_ob->ob->prog->num_variables_total - r_ob->new_prog->num_variables_total;.*"
+         r"if \(\(offset = r_ob->var_offset\)\) \{ svp = r_ob->ob->variables; "
+         r"for \(i = 0; i < r_ob->new_prog->num_variables_total; i\+\+\) \{ free_svalue \(svp, [^)]*\); \*svp = \*\(svp \+ offset\); \*\(svp \+ offset\) = const0u; svp\+\+; \} "
+         r"for \(i = 0; i < num_fewer; i\+\+\) \{ free_svalue \(svp, [^)]*\); \*svp\+\+ = const0u; \} \} "
+         r"else \{ svp = &r_ob->ob->variables\[r_ob->new_prog->num_variables_total\]; "
+         r"for \(i = 0; i < num_fewer; i\+\+\) \{ free_svalue \(svp, [^)]*\); \*svp\+\+ = const0u; \} \} "
+         r"r_ob->new_prog->ref\+\+; old_prog = r_ob->ob->prog; r_ob->ob->prog = r_ob->new_prog; r_next = r_ob->next; free_prog \(old_prog, 1\);",
+         "replace_programs no longer moves the kept variables to the front, releases EVERY other variable "
+         "(num_fewer slots behind them) and switches the program with `new_prog->ref++; ...; free_prog (old_prog, 1);`"),
+        ("src/simulate.c", "remove_destructed_objects",
+         r"if \(obj_list_replace\) replace_programs \(\); for \(ob = obj_list_destruct; ob; ob = next\) \{ next = ob->next_all; destruct2 \(ob\); \}",
+         "remove_destructed_objects no longer runs replace_programs() before destruct2() of every destructed object"),
+        # order of the calls of one sweep: a new call goes in front of the calls due at the same time
+        ("lib/efuns/call_out.c", "new_call_out",
+         r"for \(copp = &call_list\[tm\]; \*copp; copp = &\(\*copp\)->next\) \{ if \(\(\*copp\)->delta >= delay\) \{ \(\*copp\)->delta -= delay; cop->delta = delay; cop->next = \*copp; \*copp = cop;",
+         "new_call_out no longer inserts a call in front of the calls that are due at the same time (order of one sweep)"),
+        ("src/stack.c", "remove_object_from_stack",
+         r"for \(svp = start_of_stack; svp <= sp; svp\+\+\) \{ if \(svp->type != T_OBJECT\) continue; if \(svp->u\.ob != ob\) continue; free_object \(svp->u\.ob, [^)]*\); svp->type = T_NUMBER; svp->u\.number = 0; \}",
+         "remove_object_from_stack no longer releases and zeroes every slot of the whole value stack that holds the object"),
+    ]
+    held = []
+    for path, fn, pat, msg in checks:
+        body = _fn(path, fn, "fn:" + fn)
+        if not re.search(pat, body):
+            raise TieBroken("fn:" + fn, msg)
+        held.append(fn)
+    info["progHolders"] = {"c": ", ".join(held)}
+    out.append("/-- holders of a program reference checked textually: %s -/\ndef progHolderSites : Nat := %d" % (", ".join(held), len(held)))
+
+
+def _array_stats(out, info):
+    """num_arrays / total_array_size: the statements of allocate_array, allocate_empty_array, dealloc_array,
+    free_empty_array; the size formula is translated into `arrBytesOf`"""
+    out.append("\n/-! ### array statistics: the size formula of allocate_array, regenerated; the four sites checked textually -/")
+    exprs = []
+    for fn, sign, var in (("allocate_array", "+", "n"), ("allocate_empty_array", "+", "n"),
+                          ("dealloc_array", "-", "p->size"), ("free_empty_array", "-", "p->size")):
+        body = _fn("lib/lpc/array.c", fn, "fn:" + fn)
+        m = re.search(r"num_arrays(\+\+|--) ?; total_array_size (\+|-)= ([^;]*);", body)
+        if not m or m.group(1) != sign * 2 or m.group(2) != sign:
+            raise TieBroken("fn:" + fn, "%s no longer does `num_arrays%s; total_array_size %s= <size>;`" % (fn, sign * 2, sign))
+        if len(re.findall(r"num_arrays(?:\+\+|--)", body)) != 1 or len(re.findall(r"total_array_size [-+]=", body)) != 1:
+            raise TieBroken("fn:" + fn, "%s updates the array statistics more than once" % fn)
+        exprs.append(" ".join(m.group(3).replace(var, "n").split()))
+    if len(set(exprs)) != 1:
+        raise TieBroken("fn:allocate_array", "the four sites no longer use the same size formula: %s" % exprs)
+    e = exprs[0]
+    lean = e.replace("sizeof (array_t)", "(sizeofArrayT : Int)").replace("sizeof (svalue_t)", "(sizeofSvalue : Int)")
+    lean = re.sub(r"\bn\b", "(n : Int)", lean)
+    rest = lean.replace("(sizeofArrayT : Int)", "").replace("(sizeofSvalue : Int)", "").replace("(n : Int)", "")
+    if re.sub(r"[\s\d+*()\-]", "", rest):
+        raise TieBroken("fn:allocate_array", "size formula outside the grammar: " + e)
+    info["arrBytesOf"] = {"c": e, "lean": lean}
+    out.append("/-- bytes accounted for an array of n elements.  C (allocate_array, allocate_empty_array, dealloc_array, "
+               "free_empty_array): `%s` -/\ndef arrBytesOf (n : Nat) : Int := %s" % (e, lean))
